@@ -8,7 +8,7 @@ import core
 import gen
 
 PID = 'C20'
-MODULES = ['FFVerif.Proofs.C20', 'FFVerif.Proofs.C20Gram', 'FFVerif.Proofs.C20Grad', 'FFVerif.Proofs.C20Align']
+MODULES = ['FFVerif.Proofs.C20', 'FFVerif.Proofs.C20Gram', 'FFVerif.Proofs.C20Grad', 'FFVerif.Proofs.C20Align', 'FFVerif.Proofs.C20GramModel']
 
 
 def fail(res, clause, case, out):
@@ -301,6 +301,59 @@ def explore(res, rng, n):
             fail(res, 'J A != B', case, None)
 
 
+def gram_model_stream(res, rng, k):
+    """the executable Lean model of gramSchmidOrth (Model/Gram.lean: coincidence test, column re-arrangement, the two loops) against
+    the implementation, column by column, on well-conditioned integer matrices: default alignment, a generic alignment vector, an exact
+    positive / negative multiple of a column (also of several), a vector close to but not on a column"""
+    core.import_impl()
+    import numpy as np
+    from ffpack import utils
+    from formmodel import fcsv, unbits
+    reqs, meta = [], []
+    for _ in range(k):
+        d = rng.choice([2, 3, 3, 4, 5])
+        M = np.array([[float(rng.randint(-4, 4)) for _ in range(d)] for _ in range(d)])
+        if abs(np.linalg.det(M)) < 1.0:
+            continue
+        r = rng.random()
+        al, kind = None, 'default'
+        if r < 0.3:
+            al, kind = np.array([float(rng.randint(-4, 4)) for _ in range(d)]), 'generic'
+        elif r < 0.55:
+            al, kind = M[:, rng.randrange(1, d)] * rng.choice([1.0, -2.0, 0.5, -1.0, 3.0]), 'multiple_of_a_column'
+        elif r < 0.65:
+            j = rng.randrange(1, d)
+            al, kind = M[:, j] + 1e-3 * np.array([float(rng.randint(-3, 3)) for _ in range(d)]), 'near_a_column'
+        elif r < 0.72 and d >= 3:
+            # two columns that are multiples of the alignment vector cannot occur in a full-rank matrix; a multiple of column 0 can
+            al, kind = M[:, 0] * rng.choice([2.0, -1.0]), 'multiple_of_column_0'
+        if al is not None:
+            if np.linalg.norm(al) == 0:
+                continue
+            # what the orthogonalisation is handed: alignVec and the columns 1.. (or all but the coinciding one)
+            cosines = [abs(float(M[:, j] @ al)) / (np.linalg.norm(M[:, j]) * np.linalg.norm(al)) for j in range(d)]
+            hit = [j for j in range(1, d) if cosines[j] > 1 - 1e-14]
+            rest = [M[:, j] for j in range(d) if j != hit[-1]] if hit else [M[:, j] for j in range(1, d)]
+            T = np.column_stack([al] + rest)
+            if abs(np.linalg.det(T)) < 0.5 * max(1.0, float(np.linalg.norm(al))) * 1e-2:
+                continue
+        res.evaluations += 1
+        res.stat('gram_model_' + kind)
+        case = {'A': M.tolist(), 'alignVec': None if al is None else al.tolist()}
+        try:
+            B, _J = utils.gramSchmidOrth(M.tolist(), None if al is None else al.tolist())
+        except Exception as e:  # noqa
+            fail(res, 'Gram-Schmidt raised on a full-rank matrix: ' + type(e).__name__, case, None)
+            continue
+        reqs.append('gram %d %s %s' % (d, fcsv(M.T.flatten()), '-' if al is None else fcsv(al)))
+        meta.append((case, np.array(B, dtype=float).T.flatten().tolist()))
+    for (case, want), a in zip(meta, core.driver_batch(reqs)):
+        res.traces += 1
+        got = unbits(a) if a != 'bad-request' else []
+        if len(got) != len(want) or any(not (abs(g - w) <= 1e-9) for g, w in zip(got, want)):
+            res.disagreements.append({'what': 'gramSchmidOrth vs model (matrix B, column by column)', 'input': case, 'impl': want, 'model': got})
+
+
 def run(tier, seed):
     res = core.Result(PID, tier, seed)
     res.rule = ('the 8 hard-coded tables as extracted from the source; general weights for odd m <= 11; derivative on random integer '
@@ -309,6 +362,7 @@ def run(tier, seed):
     core.prove(res, PID, MODULES, clean=(tier == 'thorough'))
     n = 300 if tier == 'quick' else 20000
     explore(res, random.Random(seed), n)
+    gram_model_stream(res, random.Random(seed + 5), 150 if tier == 'quick' else 5000)
     if (res.proof_problems or res.disagreements) and not res.failures:
         explore(res, random.Random(seed + 7919), 4 * n)
     res.disagreements_checked = res.traces
